@@ -91,7 +91,7 @@ def units(rng, tier):
                     us.append(tag(part(rng, a, kk, z, fam, **kw), grp, "zeros"))
     # dense agreement stream for complete greedy under every objective against the model's (proved optimal) value: 7-10 items, 3-4 bins -
     # pruning rules that are valid for one objective only (min-max rules applied to max-min ...) lose the optimum on about 1 input in 1 000
-    for _ in range(1500 if tier == "quick" else 20000):
+    for _ in range(1000 if tier == "quick" else 20000):
         k = rng.choice([3, 3, 4])
         v = [rng.randint(1, 40) for _ in range(rng.randint(7, 10))]
         _gid[0] += 1
